@@ -4,7 +4,8 @@ Case (one line):  <limit> <expiration|-> <f|m|F|M> op*      (F / M: every caller
                   `async with ctx.scope(...)` – nothing may change: the invocation belongs to no caller's scope)
   call:<key>        create the next caller task of the cached coroutine function (numbered in creation order)
   cancel:<caller>   cancel that caller task
-  fin:<inv>:<o|x>   open the gate the invocation <inv> of the wrapped coroutine is waiting on (result / exception)
+  fin:<inv>:<o|x|c> open the gate the invocation <inv> of the wrapped coroutine is waiting on (result / exception / the
+                    coroutine raises CancelledError itself)
   adv:<dt>          advance the virtual clock
   run               run the loop to quiescence and take a snapshot
 After the last op: run, open all closed gates with a result, run.
@@ -33,7 +34,7 @@ TRUSTED = ["asyncio semantics as modelled in Haiway/Model/AsyncCache.lean: FIFO 
            "Task.cancel of a task suspended on shield() cancels only the outer future, a task cancelled before its first "
            "step never runs its coroutine body",
            "harness/comp_acache.py run_real + monitor (virtual loop harness/vloop.py)"]
-ASSUMPTIONS = ["the wrapped coroutine itself neither raises CancelledError nor cancels anybody",
+ASSUMPTIONS = ["the wrapped coroutine cancels nobody (it may end with a CancelledError of its own: outcome `c`)",
                "integer clock and expirations; expiration=0 (never expires) is not generated",
                "single event loop, callers are plain tasks"]
 
@@ -61,7 +62,7 @@ def parse_case(case: str):
             ops.append(("run",))
         elif len(p) == 2 and p[0] in ("call", "cancel", "adv") and p[1].isdigit():
             ops.append((p[0], int(p[1])))
-        elif len(p) == 3 and p[0] == "fin" and p[1].isdigit() and p[2] in ("o", "x"):
+        elif len(p) == 3 and p[0] == "fin" and p[1].isdigit() and p[2] in ("o", "x", "c"):
             ops.append(("fin", int(p[1]), p[2]))
         else:
             return None
@@ -93,6 +94,8 @@ def run_real(case: str) -> str:
                 raise
             if out == "x":
                 raise Boom(idx)
+            if out == "c":
+                raise asyncio.CancelledError()      # the coroutine ends cancelled on its own (a cancelled dependency)
             return (key, idx)
 
         kw = dict(limit=limit, expiration=None if exp is None else float(exp))
@@ -255,7 +258,9 @@ def monitor(case: str, out: str) -> list[str]:
                 fails.append("acache.caller-hangs")
             continue
         if tok == "c":
-            if not info["cancelled"]:
+            # cancelled itself, or the invocation it shared ended cancelled on its own (everyone awaiting it goes with it)
+            if not info["cancelled"] and not any(o == "c" and t < len(invs) and invs[t][0] == info["key"]
+                                                 for t, (o, _r) in fired.items()):
                 fails.append("acache.caller-cancelled-spuriously")
             continue
         t = int(tok[1:])
@@ -321,6 +326,9 @@ def corpus():
         "1 - f call:0 run cancel:0 run call:0 run fin:0:o run",                # everybody gone, invocation lives on, cached
         "1 - f call:0 call:0 run fin:0:o cancel:1 run call:0 run",             # cancelled after the gate opened
         "1 - f call:0 run call:0 fin:0:o run",                                 # arrives before / after the gate opens
+        "1 - f call:0 call:0 run fin:0:c run call:0 run",                      # the invocation ends cancelled on its own
+        "1 2 f call:0 run adv:3 call:0 run fin:0:c run call:0 run fin:1:o run",  # ... after its entry expired and a new one started
+        "1 - f call:0 run call:1 run fin:0:c run call:0 run call:1 run",         # ... after its entry was evicted
         "1 - f call:0 run fin:0:o call:0 run",
         "1 - f call:0 run fin:0:x run call:0 call:0 run",                      # finished failure is served again
         "1 - f call:0 run call:1 run call:0 run fin:0:o fin:1:x fin:2:o run",  # eviction in flight (limit 1)
@@ -357,7 +365,7 @@ def random_case(rng) -> str:
         elif r < 0.7:
             toks.append(f"cancel:{rng.randrange(ncall)}")
         elif r < 0.88:
-            toks.append(f"fin:{rng.randrange(ncall)}:{rng.choice('oox')}")
+            toks.append(f"fin:{rng.randrange(ncall)}:{rng.choice('ooooxxc')}")
         else:
             toks.append(f"adv:{rng.choice([1, 2, 3, 6] + ([exp, exp + 1] if exp else []))}")
     return f"{limit} {'-' if exp is None else exp} {variant} " + " ".join(toks)
@@ -459,7 +467,7 @@ def mutate(rng, case: str) -> str:
         r = rng.random()
         ncall = max(1, sum(1 for t in ops if t.startswith("call:")))
         new = rng.choice([f"call:{rng.randrange(2)}", "run", f"cancel:{rng.randrange(ncall)}",
-                          f"fin:{rng.randrange(ncall)}:{rng.choice('ox')}", f"adv:{rng.randint(1, 4)}"])
+                          f"fin:{rng.randrange(ncall)}:{rng.choice('oxc')}", f"adv:{rng.randint(1, 4)}"])
         if r < 0.1:
             head[0] = rng.choice(["1", "2"])
         elif r < 0.2:
